@@ -353,6 +353,11 @@ int tls_cbc_decrypt(const SM3_HMAC_CTX *inited_hmac_ctx, const SM4_KEY *dec_key,
 	sm4_cbc_decrypt_blocks(dec_key, iv, in, inlen/16, out);
 
 	padding_len = out[inlen - 1];
+	// padding, padding_len byte and mac must fit: do not form a pointer below out
+	if (inlen < (size_t)padding_len + 1 + 32) {
+		error_print();
+		return -1;
+	}
 	padding = out + inlen - padding_len - 1;
 	if (padding < out + 32) {
 		error_print();
